@@ -1,5 +1,9 @@
 import FeatModel.Lemmas.C13Examples
 import FeatModel.Lemmas.C13CompEx
+import FeatModel.Lemmas.C13ExtExpand
+import FeatModel.Lemmas.C13ExtSync
+import FeatModel.Lemmas.C13ExtEx
+import FeatModel.Lemmas.C13ExtSplitter
 /-! # C13 — distributed vector synchronisation (Gate / SynchVectorTicket / Global::Matrix) -/
 open FeatModel.Dist FeatModel.C13L
 
@@ -500,3 +504,428 @@ theorem C13.cgdot_flat {α : Type} [Field α] (ps : List (CPatch α))
   FeatModel.C13L.cgdot_flat ps hwf xs ys
 
 example : ∀ nb ∈ (exCPs.getD 0 default).nbrs, nb.2.wf (exCPs.getD 0 default).tmpl = true := by decide
+
+/-! ## Extensions: blocked decompositions, second apply overload, type conversions, norms, diag / lump -/
+
+/-- (1) **block expansion preserves well-formedness** (for every block size, `bs = 0` included: then all
+patches are empty), so every theorem about a scalar decomposition holds for `DenseVectorBlocked` gates -/
+theorem C13.WF_expand (d : Decomp) (h : d.WF) (bs : Nat) : (d.expand bs).WF :=
+  FeatModel.C13L.WF_expand d h bs
+
+theorem C13.expand_np (d : Decomp) (bs : Nat) : (d.expand bs).np = d.np := FeatModel.C13L.expand_np d bs
+
+theorem C13.expand_patch (d : Decomp) (bs r : Nat) : (d.expand bs).patch r = (d.patch r).expand bs :=
+  FeatModel.C13L.expand_patch d bs r
+
+theorem C13.expand_lmap (d : Decomp) (bs r : Nat) : (d.expand bs).lmap r = expand bs (d.lmap r) :=
+  FeatModel.C13L.expand_lmap d bs r
+
+/-- component `k` of local block `i` is component `k` of the global block -/
+theorem C13.expand_gdof (d : Decomp) (bs r i k : Nat) (hi : i < (d.lmap r).length) (hk : k < bs) :
+    (d.expand bs).gdof r (i * bs + k) = d.gdof r i * bs + k :=
+  FeatModel.C13L.expand_gdof d bs r i k hi hk
+
+theorem C13.expand_one (l : List Nat) : expand 1 l = l := FeatModel.C13L.expand_one l
+
+theorem C13.patch_expand_one (p : Patch) : p.expand 1 = p := FeatModel.C13L.patch_expand_one p
+
+theorem C13.mem_expand {bs : Nat} {idx : List Nat} {j : Nat} :
+    j ∈ expand bs idx ↔ ∃ i ∈ idx, ∃ k < bs, j = i * bs + k := mem_expand_iff
+
+theorem C13.expand_length (bs : Nat) (idx : List Nat) : (expand bs idx).length = idx.length * bs :=
+  FeatModel.C13L.expand_length bs idx
+
+theorem C13.expand_nodup (bs : Nat) (l : List Nat) (hn : l.Nodup) : (expand bs l).Nodup :=
+  FeatModel.C13L.expand_nodup bs hn
+
+theorem C13.getD_expand (bs : Nat) (l : List Nat) (i k : Nat) (hi : i < l.length) (hk : k < bs) :
+    (expand bs l).getD (i * bs + k) 0 = l.getD i 0 * bs + k :=
+  FeatModel.C13L.getD_expand bs l i k hi hk
+
+/-- an expanded mirror read through the expanded local-to-global map -/
+theorem C13.map_gdof_expand (d : Decomp) (h : d.WF) (bs r : Nat) (hr : r < d.np) (l : List Nat)
+    (hl : ∀ i ∈ l, i < (d.patch r).n) :
+    (expand bs l).map ((d.expand bs).gdof r) = expand bs (l.map (d.gdof r)) := by
+  have := map_getD_expand bs (d.lmap r) l (fun i hi => by rw [← h.size r hr]; exact hl i hi)
+  unfold Decomp.gdof
+  rw [FeatModel.C13L.expand_lmap]
+  exact this
+
+/-- the scalar synchronisation theorem for a blocked vector (`DenseVectorBlocked<bs>` on its POD array): component `k`
+of local block `i` receives the sum over all patches of their values for component `k` of the same global block -/
+theorem C13.sync0_sum_blocked {α : Type} [Field α] (d : Decomp) (h : d.WF) (bs : Nat) (vs : List (List α))
+    (hv : ∀ r, r < d.np → (vs.getD r []).length = (d.patch r).n * bs)
+    (ords : List (List Nat))
+    (hord : ∀ r, r < d.np → (ords.getD r []).Perm (List.range (d.patch r).nbrs.length))
+    (r : Nat) (hr : r < d.np) (i : Nat) (hi : i < (d.patch r).n) (k : Nat) (hk : k < bs) :
+    val ((sync0 (d.patches.map (Patch.expand bs)) ords vs).getD r []) (i * bs + k)
+      = ((List.range d.np).map fun s =>
+          ((d.expand bs).sharedVals vs s (d.gdof r i * bs + k)).sum).sum := by
+  have hik : i * bs + k < ((d.expand bs).patch r).n := by
+    rw [FeatModel.C13L.expand_patch, expand_n]
+    calc i * bs + k < i * bs + bs := by omega
+      _ = (i + 1) * bs := by rw [Nat.succ_mul]
+      _ ≤ (d.patch r).n * bs := Nat.mul_le_mul_right bs hi
+  have := C13.sync0_sum (d.expand bs) (FeatModel.C13L.WF_expand d h bs) vs
+    (fun s hs => by rw [FeatModel.C13L.expand_np] at hs; rw [FeatModel.C13L.expand_patch, expand_n]; exact hv s hs)
+    ords
+    (fun s hs => by
+      rw [FeatModel.C13L.expand_np] at hs
+      rw [FeatModel.C13L.expand_patch, expand_nbrs, List.length_map]; exact hord s hs)
+    r (by rw [FeatModel.C13L.expand_np]; exact hr) (i * bs + k) hik
+  rw [FeatModel.C13L.expand_np, FeatModel.C13L.expand_gdof d bs r i k (by rw [← h.size r hr]; exact hi) hk] at this
+  exact this
+
+example : (exDecomp.expand 2).WF := C13.WF_expand exDecomp exDecomp_wf 2
+example : (exDecomp.expand 2).maps = [[0, 1, 2, 3, 4, 5], [2, 3, 0, 1, 6, 7], [8, 9, 0, 1]]
+    ∧ ((exDecomp.expand 2).patch 1).nbrs = [(2, [2, 3]), (0, [2, 3, 0, 1])] := by decide
+
+/-- (2) **`Global::Matrix::apply(r, x, y, α)`** with a consistent (type-1) `y` given by `Y`: the `from_1_to_0`
+on the `y` side makes `Y` come out with factor one, the matrix part is the sum of the local products -/
+theorem C13.gapply2_eq {α : Type} [Field α] [CharZero α] (d : Decomp) (h : d.WF)
+    (mats : List (List (List (Nat × α)))) (xs ys : List (List α)) (alpha : α) (Y : Nat → α)
+    (hm : ∀ r, r < d.np → (mats.getD r []).length = (d.patch r).n)
+    (hyl : ∀ r, r < d.np → (ys.getD r []).length = (d.patch r).n)
+    (hY : ∀ r, r < d.np → ∀ i, i < (d.patch r).n → val (ys.getD r []) i = Y (d.gdof r i))
+    (ords : List (List Nat))
+    (hord : ∀ r, r < d.np → (ords.getD r []).Perm (List.range (d.patch r).nbrs.length))
+    (r : Nat) (hr : r < d.np) (i : Nat) (hi : i < (d.patch r).n) :
+    val ((gapply2 d.patches ords mats xs ys alpha).getD r []) i
+      = Y (d.gdof r i) + alpha * ((List.range d.np).map fun s => (d.sharedVals
+          ((List.range d.np).map fun t => matVec (mats.getD t []) (xs.getD t [])) s (d.gdof r i)).sum).sum :=
+  FeatModel.C13L.gapply2_eq d h mats xs ys alpha Y hm hyl hY ords hord r hr i hi
+
+theorem C13.gapply2_order_indep {α : Type} [Field α] (ps : List Patch)
+    (mats : List (List (List (Nat × α)))) (xs ys : List (List α)) (alpha : α)
+    (ords₁ ords₂ : List (List Nat)) (h : ∀ r, (ords₁.getD r []).Perm (ords₂.getD r [])) :
+    gapply2 ps ords₁ mats xs ys alpha = gapply2 ps ords₂ mats xs ys alpha :=
+  sync0_perm ps _ ords₁ ords₂ h
+
+/-- (3) the result of `sync_0` is a consistent (type-1) vector -/
+theorem C13.sync0_result_type1 {α : Type} [Field α] (d : Decomp) (h : d.WF) (vs : List (List α))
+    (hv : ∀ r, r < d.np → (vs.getD r []).length = (d.patch r).n)
+    (ords : List (List Nat)) (hord : ∀ r, r < d.np → (ords.getD r []).Perm (List.range (d.patch r).nbrs.length))
+    (r s i j : Nat) (hr : r < d.np) (hs : s < d.np) (hi : i < (d.patch r).n) (hj : j < (d.patch s).n)
+    (hg : d.gdof r i = d.gdof s j) :
+    val ((sync0 d.patches ords vs).getD r []) i = val ((sync0 d.patches ords vs).getD s []) j :=
+  FeatModel.C13L.sync0_result_type1 d h vs hv ords hord r s i j hr hs hi hj hg
+
+/-- … so it is unchanged by a following `sync_1` (any arrival orders in both steps) -/
+theorem C13.sync1_sync0 {α : Type} [Field α] [CharZero α] (d : Decomp) (h : d.WF) (vs : List (List α))
+    (hv : ∀ r, r < d.np → (vs.getD r []).length = (d.patch r).n)
+    (ords ords' : List (List Nat))
+    (hord : ∀ r, r < d.np → (ords.getD r []).Perm (List.range (d.patch r).nbrs.length))
+    (hord' : ∀ r, r < d.np → (ords'.getD r []).Perm (List.range (d.patch r).nbrs.length))
+    (r : Nat) (hr : r < d.np) (i : Nat) (hi : i < (d.patch r).n) :
+    val ((sync1 d.patches ords' (sync0 d.patches ords vs)).getD r []) i
+      = val ((sync0 d.patches ords vs).getD r []) i :=
+  FeatModel.C13L.sync1_sync0 d h vs hv ords ords' hord hord' r hr i hi
+
+/-- `sync_1` of an arbitrary vector: the mean of the values held by the sharing patches -/
+theorem C13.sync1_mean {α : Type} [Field α] (d : Decomp) (h : d.WF) (vs : List (List α))
+    (hv : ∀ r, r < d.np → (vs.getD r []).length = (d.patch r).n)
+    (ords : List (List Nat)) (hord : ∀ r, r < d.np → (ords.getD r []).Perm (List.range (d.patch r).nbrs.length))
+    (r : Nat) (hr : r < d.np) (i : Nat) (hi : i < (d.patch r).n) :
+    val ((sync1 d.patches ords vs).getD r []) i
+      = ((List.range d.np).map fun s => (d.sharedVals vs s (d.gdof r i)).sum).sum
+          / ((d.sharers (d.gdof r i)).length : α) :=
+  FeatModel.C13L.sync1_mean d h vs hv ords hord r hr i hi
+
+theorem C13.sync0_length {α : Type} [Field α] (ps : List Patch) (ords : List (List Nat)) (vs : List (List α))
+    (r : Nat) (hr : r < ps.length) : ((sync0 ps ords vs).getD r []).length = (vs.getD r []).length :=
+  sync0_getD_length ps ords vs r hr
+
+/-- (4) `Global::Vector::norm2sqr` of a consistent vector: every global DOF counted once -/
+theorem C13.gnorm2sqr_eq {α : Type} [Field α] [CharZero α] (d : Decomp) (h : d.WF) (xs : List (List α))
+    (X : Nat → α)
+    (hxl : ∀ r, r < d.np → (xs.getD r []).length = (d.patch r).n)
+    (hX : ∀ r, r < d.np → ∀ i, i < (d.patch r).n → val (xs.getD r []) i = X (d.gdof r i)) :
+    gnorm2sqr d.patches xs = ((d.maps.flatten.dedup).map fun g => X g * X g).sum :=
+  C13.gdot_eq d h xs xs X X hxl hxl hX hX
+
+theorem C13.gnorm2_eq {α : Type} [Field α] [CharZero α] (sqrt : α → α) (d : Decomp) (h : d.WF)
+    (xs : List (List α)) (X : Nat → α)
+    (hxl : ∀ r, r < d.np → (xs.getD r []).length = (d.patch r).n)
+    (hX : ∀ r, r < d.np → ∀ i, i < (d.patch r).n → val (xs.getD r []) i = X (d.gdof r i)) :
+    gnorm2 sqrt d.patches xs = sqrt (((d.maps.flatten.dedup).map fun g => X g * X g).sum) := by
+  unfold gnorm2; rw [C13.gnorm2sqr_eq d h xs X hxl hX]
+
+theorem C13.allSum_eq {α : Type} [Field α] (l : List α) : allSum l = l.sum := FeatModel.C13L.allSum_eq l
+
+theorem C13.gateNorm2_eq {α : Type} [Field α] (sqrt : α → α) (l : List α) :
+    gateNorm2 sqrt l = sqrt ((l.map fun x => x * x).sum) := FeatModel.C13L.gateNorm2_eq sqrt l
+
+/-- (5) `extract_diag(sync = true)`: the sum over the sharing patches of the local diagonal entries -/
+theorem C13.gdiag_eq {α : Type} [Field α] (d : Decomp) (h : d.WF) (mats : List (List (List (Nat × α))))
+    (hm : ∀ r, r < d.np → (mats.getD r []).length = (d.patch r).n)
+    (ords : List (List Nat))
+    (hord : ∀ r, r < d.np → (ords.getD r []).Perm (List.range (d.patch r).nbrs.length))
+    (r : Nat) (hr : r < d.np) (i : Nat) (hi : i < (d.patch r).n) :
+    val ((gdiag d.patches ords mats).getD r []) i
+      = ((List.range d.np).map fun s => (d.sharedVals
+          ((List.range d.np).map fun t => matDiag (mats.getD t [])) s (d.gdof r i)).sum).sum := by
+  unfold gdiag
+  refine C13.sync0_sum d h _ ?_ ords hord r hr i hi
+  intro s hs
+  have hs' : s < d.patches.length := hs
+  rw [getD_range_map _ _ _ s hs', matDiag_length, hm s hs]
+
+/-- `lump_rows(sync = true)`: the sum over the sharing patches of the local row sums -/
+theorem C13.glump_eq {α : Type} [Field α] (d : Decomp) (h : d.WF) (mats : List (List (List (Nat × α))))
+    (hm : ∀ r, r < d.np → (mats.getD r []).length = (d.patch r).n)
+    (ords : List (List Nat))
+    (hord : ∀ r, r < d.np → (ords.getD r []).Perm (List.range (d.patch r).nbrs.length))
+    (r : Nat) (hr : r < d.np) (i : Nat) (hi : i < (d.patch r).n) :
+    val ((glump d.patches ords mats).getD r []) i
+      = ((List.range d.np).map fun s => (d.sharedVals
+          ((List.range d.np).map fun t => matLump (mats.getD t [])) s (d.gdof r i)).sum).sum := by
+  unfold glump
+  refine C13.sync0_sum d h _ ?_ ords hord r hr i hi
+  intro s hs
+  have hs' : s < d.patches.length := hs
+  rw [getD_range_map _ _ _ s hs', matLump_length, hm s hs]
+
+theorem C13.gdiag_order_indep {α : Type} [Field α] (ps : List Patch) (mats : List (List (List (Nat × α))))
+    (ords₁ ords₂ : List (List Nat)) (h : ∀ r, (ords₁.getD r []).Perm (ords₂.getD r [])) :
+    gdiag ps ords₁ mats = gdiag ps ords₂ mats ∧ glump ps ords₁ mats = glump ps ords₂ mats :=
+  ⟨sync0_perm ps _ ords₁ ords₂ h, sync0_perm ps _ ords₁ ords₂ h⟩
+
+example : (List.range exDecomp.np).map (fun t => matDiag (exMats.getD t [])) = [[2, 2, 1], [2, 1, 4], [3, 1]] := by
+  decide
+
+/-- (7) the `Global::Vector` program `r = b * (y + a * x)` entry by entry … -/
+theorem C13.vopsLocal_val {α : Type} [Field α] (a b : α) (ys xs : List (List α)) (r : Nat)
+    (hy : r < ys.length) (hx : r < xs.length)
+    (i : Nat) (hiy : i < (ys.getD r []).length) (hix : i < (xs.getD r []).length) :
+    val ((vopsLocal a b ys xs).getD r []) i = b * (val (ys.getD r []) i + a * val (xs.getD r []) i) :=
+  FeatModel.C13L.vopsLocal_val a b ys xs r hy hx i hiy hix
+
+/-- … so consistent inputs `Y`, `X` give the consistent vector `b * (Y + a * X)` (no communication needed) -/
+theorem C13.vopsLocal_type1 {α : Type} [Field α] (a b : α) (d : Decomp) (ys xs : List (List α)) (X Y : Nat → α)
+    (hyn : ys.length = d.np) (hxn : xs.length = d.np)
+    (hxl : ∀ r, r < d.np → (xs.getD r []).length = (d.patch r).n)
+    (hyl : ∀ r, r < d.np → (ys.getD r []).length = (d.patch r).n)
+    (hX : ∀ r, r < d.np → ∀ i, i < (d.patch r).n → val (xs.getD r []) i = X (d.gdof r i))
+    (hY : ∀ r, r < d.np → ∀ i, i < (d.patch r).n → val (ys.getD r []) i = Y (d.gdof r i))
+    (r : Nat) (hr : r < d.np) (i : Nat) (hi : i < (d.patch r).n) :
+    val ((vopsLocal a b ys xs).getD r []) i = b * (Y (d.gdof r i) + a * X (d.gdof r i)) := by
+  rw [FeatModel.C13L.vopsLocal_val a b ys xs r (by omega) (by omega) i (by rw [hyl r hr]; exact hi)
+    (by rw [hxl r hr]; exact hi), hY r hr i hi, hX r hr i hi]
+
+example : exVs.length = exDecomp.np := by decide
+
+/-! ## Extensions: min / max reductions (linearly ordered field) -/
+
+theorem C13.maxOf_eq_max {α : Type} [Field α] [LinearOrder α] [IsStrictOrderedRing α] (a b : α) :
+    maxOf a b = max a b ∧ minOf a b = min a b ∧ absOf a = |a| :=
+  ⟨FeatModel.C13L.maxOf_eq_max a b, minOf_eq_min a b, absOf_eq_abs a⟩
+
+/-- `Gate::max` / `Gate::min` of a non-empty list: an upper / lower bound that is attained -/
+theorem C13.allMax_spec {α : Type} [Field α] [LinearOrder α] [IsStrictOrderedRing α] (l : List α) (hl : l ≠ []) :
+    allMax l ∈ l ∧ (∀ x ∈ l, x ≤ allMax l) ∧ allMin l ∈ l ∧ (∀ x ∈ l, allMin l ≤ x) :=
+  ⟨allMax_mem l hl, allMax_ge l, allMin_mem l hl, allMin_le l⟩
+
+/-- (6) `max_abs_element` bounds every entry (purely local vectors, no decomposition needed) … -/
+theorem C13.gMaxAbs_ge_val {α : Type} [Field α] [LinearOrder α] [IsStrictOrderedRing α] (xs : List (List α)) (r i : Nat)
+    (hi : i < (xs.getD r []).length) : absOf (val (xs.getD r []) i) ≤ gMaxAbs xs :=
+  FeatModel.C13L.gMaxAbs_ge xs r i hi
+
+/-- … in particular every global value of a consistent vector -/
+theorem C13.gMaxAbs_ge {α : Type} [Field α] [LinearOrder α] [IsStrictOrderedRing α] (d : Decomp) (xs : List (List α)) (X : Nat → α)
+    (hxl : ∀ r, r < d.np → (xs.getD r []).length = (d.patch r).n)
+    (hX : ∀ r, r < d.np → ∀ i, i < (d.patch r).n → val (xs.getD r []) i = X (d.gdof r i))
+    (r : Nat) (hr : r < d.np) (i : Nat) (hi : i < (d.patch r).n) :
+    absOf (X (d.gdof r i)) ≤ gMaxAbs xs := by
+  rw [← hX r hr i hi]; exact FeatModel.C13L.gMaxAbs_ge xs r i (by rw [hxl r hr]; exact hi)
+
+/-- it is attained as soon as one patch is non-empty (the search starts from 0, and `0 ≤ |x|`) -/
+theorem C13.gMaxAbs_attained {α : Type} [Field α] [LinearOrder α] [IsStrictOrderedRing α] (xs : List (List α)) (r0 : Nat)
+    (h0 : 0 < (xs.getD r0 []).length) :
+    ∃ r i, i < (xs.getD r []).length ∧ gMaxAbs xs = absOf (val (xs.getD r []) i) :=
+  FeatModel.C13L.gMaxAbs_attained xs r0 h0
+
+/-- enumeration form: the maximum of `|X g|` over all global DOFs (one vector per patch) -/
+theorem C13.gMaxAbs_enum {α : Type} [Field α] [LinearOrder α] [IsStrictOrderedRing α] (d : Decomp) (h : d.WF) (xs : List (List α)) (X : Nat → α)
+    (hn : xs.length = d.np)
+    (hxl : ∀ r, r < d.np → (xs.getD r []).length = (d.patch r).n)
+    (hX : ∀ r, r < d.np → ∀ i, i < (d.patch r).n → val (xs.getD r []) i = X (d.gdof r i)) :
+    gMaxAbs xs = ((d.maps.flatten.dedup).map fun g => absOf (X g)).foldl maxOf 0 :=
+  FeatModel.C13L.gMaxAbs_enum d h xs X hn hxl hX
+
+theorem C13.gMax_ge {α : Type} [Field α] [LinearOrder α] [IsStrictOrderedRing α] (d : Decomp) (xs : List (List α)) (X : Nat → α)
+    (hxl : ∀ r, r < d.np → (xs.getD r []).length = (d.patch r).n)
+    (hX : ∀ r, r < d.np → ∀ i, i < (d.patch r).n → val (xs.getD r []) i = X (d.gdof r i))
+    (r : Nat) (hr : r < d.np) (i : Nat) (hi : i < (d.patch r).n) :
+    X (d.gdof r i) ≤ gMax xs ∧ gMin xs ≤ X (d.gdof r i) ∧ gMinAbs xs ≤ absOf (X (d.gdof r i)) := by
+  have hi' : i < (xs.getD r []).length := by rw [hxl r hr]; exact hi
+  rw [← hX r hr i hi]
+  exact ⟨FeatModel.C13L.gMax_ge xs r i hi', gMin_le xs r i hi', gMinAbs_le xs r i hi'⟩
+
+/-- `max_element`, `min_element`, `min_abs_element` are attained if there is at least one patch and every
+patch is non-empty (`Gate::max` of an empty patch's start value would otherwise enter the reduction) -/
+theorem C13.gMax_attained {α : Type} [Field α] [LinearOrder α] [IsStrictOrderedRing α] (xs : List (List α)) (hne : xs ≠ [])
+    (hall : ∀ v ∈ xs, v ≠ []) :
+    (∃ r i, i < (xs.getD r []).length ∧ gMax xs = val (xs.getD r []) i)
+    ∧ (∃ r i, i < (xs.getD r []).length ∧ gMin xs = val (xs.getD r []) i)
+    ∧ (∃ r i, i < (xs.getD r []).length ∧ gMinAbs xs = absOf (val (xs.getD r []) i)) :=
+  ⟨FeatModel.C13L.gMax_attained xs hne hall, gMin_attained xs hne hall, gMinAbs_attained xs hne hall⟩
+
+example : exVs ≠ [] ∧ (∀ v ∈ exVs, v ≠ []) ∧ 0 < (exVs.getD 0 []).length := by decide
+example : gMaxAbs exVs = 7 := by
+  simp [gMaxAbs, exVs, allMax, localMaxAbs, maxOf, absOf]
+  norm_num
+example : gMin exVs = 1 := by
+  simp [gMin, exVs, allMin, localMin, minOf]
+  norm_num
+
+/-! ## Extensions: unit filters -/
+
+/-- (8) `UnitFilter::filter_rhs` / `filter_sol` with duplicate-free indices: length kept, filter indices receive
+their values, all other entries are unchanged -/
+theorem C13.unitFilterSet_val {α : Type} [Field α] (f : List (Nat × α)) (hn : (f.map (·.1)).Nodup) (v : List α) :
+    (unitFilterSet f v).length = v.length
+    ∧ (∀ e ∈ f, e.1 < v.length → val (unitFilterSet f v) e.1 = e.2)
+    ∧ (∀ i, i ∉ f.map (·.1) → val (unitFilterSet f v) i = val v i) :=
+  ⟨unitFilterSet_length f v, fun e he hlt => unitFilterSet_val_mem f hn v e he hlt,
+   fun i hi => unitFilterSet_val_not_mem f v i hi⟩
+
+/-- `filter_def` / `filter_cor` (no hypothesis on the index list) -/
+theorem C13.unitFilterZero_val {α : Type} [Field α] (f : List (Nat × α)) (v : List α) :
+    (unitFilterZero f v).length = v.length
+    ∧ (∀ i ∈ f.map (·.1), i < v.length → val (unitFilterZero f v) i = 0)
+    ∧ (∀ i, i ∉ f.map (·.1) → val (unitFilterZero f v) i = val v i) :=
+  ⟨unitFilterZero_length f v, fun i hi hlt => unitFilterZero_val_mem f v i hi hlt,
+   fun i hi => unitFilterZero_val_not_mem f v i hi⟩
+
+/-- both cases in one formula -/
+theorem C13.unitFilterSet_val_find {α : Type} [Field α] (f : List (Nat × α)) (hn : (f.map (·.1)).Nodup)
+    (v : List α) (i : Nat) (hi : i < v.length) :
+    val (unitFilterSet f v) i = ((f.find? fun e => e.1 == i).map (·.2)).getD (val v i) :=
+  FeatModel.C13L.unitFilterSet_val f hn v i hi
+
+/-- `Global::Filter`: a filter that prescribes the same for all copies of a shared DOF maps a consistent
+(type-1) vector to a consistent vector (both the value-setting and the zeroing variant) -/
+theorem C13.gfilter_type1 {α : Type} [Field α] (zero : Bool) (d : Decomp) (fs : List (List (Nat × α)))
+    (vs : List (List α))
+    (hfn : fs.length = d.np) (hvn : vs.length = d.np)
+    (hv : ∀ r, r < d.np → (vs.getD r []).length = (d.patch r).n)
+    (hnd : ∀ r, r < d.np → ((fs.getD r []).map (·.1)).Nodup)
+    (hc : ∀ r s i j, r < d.np → s < d.np → i < (d.patch r).n → j < (d.patch s).n → d.gdof r i = d.gdof s j →
+      ((fs.getD r []).find? fun e => e.1 == i).map (·.2) = ((fs.getD s []).find? fun e => e.1 == j).map (·.2))
+    (h1 : ∀ r s i j, r < d.np → s < d.np → i < (d.patch r).n → j < (d.patch s).n →
+      d.gdof r i = d.gdof s j → val (vs.getD r []) i = val (vs.getD s []) j)
+    (r s i j : Nat) (hr : r < d.np) (hs : s < d.np) (hi : i < (d.patch r).n) (hj : j < (d.patch s).n)
+    (hg : d.gdof r i = d.gdof s j) :
+    val ((gfilter zero fs vs).getD r []) i = val ((gfilter zero fs vs).getD s []) j :=
+  FeatModel.C13L.gfilter_type1 zero d fs vs hfn hvn hv hnd hc h1 r s i j hr hs hi hj hg
+
+theorem C13.gfilter_length {α : Type} [Field α] (zero : Bool) (fs : List (List (Nat × α))) (vs : List (List α))
+    (r : Nat) (hf : r < fs.length) (hv : r < vs.length) :
+    ((gfilter zero fs vs).getD r []).length = (vs.getD r []).length :=
+  gfilter_getD_length zero fs vs r hf hv
+
+example : exFs.length = exDecomp.np ∧ ∀ r, r < exDecomp.np → ((exFs.getD r []).map (·.1)).Nodup := by decide
+
+/-- the example filter is consistent on the shared DOFs -/
+example : ∀ r s i j, r < exDecomp.np → s < exDecomp.np → i < (exDecomp.patch r).n → j < (exDecomp.patch s).n →
+    exDecomp.gdof r i = exDecomp.gdof s j →
+    ((exFs.getD r []).find? fun e => e.1 == i).map (·.2) = ((exFs.getD s []).find? fun e => e.1 == j).map (·.2) := by
+  have key : ∀ r < 3, ∀ s < 3, ∀ i < 3, ∀ j < 3,
+      (exDecomp.gdof r i = exDecomp.gdof s j ∧ i < (exDecomp.patch r).n ∧ j < (exDecomp.patch s).n) →
+      ((exFs.getD r []).find? fun e => e.1 == i).map (·.2)
+        = ((exFs.getD s []).find? fun e => e.1 == j).map (·.2) := by
+    intro r hr s hs
+    have hr' : r = 0 ∨ r = 1 ∨ r = 2 := by omega
+    have hs' : s = 0 ∨ s = 1 ∨ s = 2 := by omega
+    rcases hr' with rfl | rfl | rfl <;> rcases hs' with rfl | rfl | rfl <;> decide
+  intro r s i j hr hs hi hj hg
+  have hn : ∀ t, t < 3 → (exDecomp.patch t).n ≤ 3 := by decide
+  exact key r hr s hs i (Nat.lt_of_lt_of_le hi (hn r hr)) j (Nat.lt_of_lt_of_le hj (hn s hs)) ⟨hg, hi, hj⟩
+
+example : gfilter false exFs exVs = [[9, 7, 1], [7, 9, 4], [3, 9]] := by decide
+
+/-! ## Extensions: the base splitter (`Global::Splitter`) -/
+
+/-- (S1) **split**: every patch receives the restriction of the base vector (and a vector of its own length) -/
+theorem C13.splitterSplit_val {α : Type} [Field α] (d : Decomp) (rm bm : List (List Nat)) (B nBase : Nat)
+    (ok : SplitterOK d rm bm B nBase) (base : List α) (hb : base.length = nBase)
+    (r : Nat) (hr : r < d.np) (i : Nat) (hi : i < (d.patch r).n) :
+    val ((splitterSplit B d.patches rm bm base).getD r []) i = val base (d.gdof r i) :=
+  FeatModel.C13L.splitterSplit_val ok base hb r hr i hi
+
+theorem C13.splitterSplit_length {α : Type} [Field α] (d : Decomp) (rm bm : List (List Nat)) (B nBase : Nat)
+    (ok : SplitterOK d rm bm B nBase) (base : List α) (hb : base.length = nBase) (r : Nat) (hr : r < d.np) :
+    ((splitterSplit B d.patches rm bm base).getD r []).length = (d.patch r).n :=
+  FeatModel.C13L.splitterSplit_length ok base hb r hr
+
+/-- the split result is a consistent (type-1) vector, given by `X := val base` -/
+theorem C13.splitterSplit_type1 {α : Type} [Field α] (d : Decomp) (rm bm : List (List Nat)) (B nBase : Nat)
+    (ok : SplitterOK d rm bm B nBase) (base : List α) (hb : base.length = nBase)
+    (r s i j : Nat) (hr : r < d.np) (hs : s < d.np) (hi : i < (d.patch r).n) (hj : j < (d.patch s).n)
+    (hg : d.gdof r i = d.gdof s j) :
+    val ((splitterSplit B d.patches rm bm base).getD r []) i
+      = val ((splitterSplit B d.patches rm bm base).getD s []) j := by
+  rw [FeatModel.C13L.splitterSplit_val ok base hb r hr i hi, FeatModel.C13L.splitterSplit_val ok base hb s hs j hj, hg]
+
+/-- (S2) **join**, arbitrary input: base DOF `g` receives the sum over all patches of their `from_1_to_0` values
+for `g`; the joined vector has `nBase` entries -/
+theorem C13.splitterJoin_sum {α : Type} [Field α] (d : Decomp) (rm bm : List (List Nat)) (B nBase : Nat)
+    (ok : SplitterOK d rm bm B nBase) (vs : List (List α))
+    (hv : ∀ r, r < d.np → (vs.getD r []).length = (d.patch r).n) (g : Nat) (hg : g < nBase) :
+    (splitterJoin B d.patches rm bm vs nBase).length = nBase ∧
+    val (splitterJoin B d.patches rm bm vs nBase) g
+      = ((List.range d.np).map fun s => (d.sharedVals
+          ((List.range d.patches.length).map fun r => from1to0 (d.patches.getD r default) (vs.getD r [])) s g).sum).sum :=
+  FeatModel.C13L.splitterJoin_sum ok vs hv g hg
+
+/-- **join of a consistent (type-1) vector given by `X`**: the `from_1_to_0` conversion makes the muxer's sum over
+the sharing patches count every covered base DOF exactly once … -/
+theorem C13.splitterJoin_eq {α : Type} [Field α] [CharZero α] (d : Decomp) (rm bm : List (List Nat)) (B nBase : Nat)
+    (ok : SplitterOK d rm bm B nBase) (vs : List (List α)) (X : Nat → α)
+    (hv : ∀ r, r < d.np → (vs.getD r []).length = (d.patch r).n)
+    (hX : ∀ r, r < d.np → ∀ i, i < (d.patch r).n → val (vs.getD r []) i = X (d.gdof r i))
+    (r : Nat) (hr : r < d.np) (i : Nat) (hi : i < (d.patch r).n) :
+    val (splitterJoin B d.patches rm bm vs nBase) (d.gdof r i) = X (d.gdof r i) :=
+  FeatModel.C13L.splitterJoin_covered ok vs X hv hX r hr i hi
+
+/-- … stated for a base DOF `g` that lies in some patch -/
+theorem C13.splitterJoin_eq_of_mem {α : Type} [Field α] [CharZero α] (d : Decomp) (rm bm : List (List Nat))
+    (B nBase : Nat) (ok : SplitterOK d rm bm B nBase) (vs : List (List α)) (X : Nat → α)
+    (hv : ∀ r, r < d.np → (vs.getD r []).length = (d.patch r).n)
+    (hX : ∀ r, r < d.np → ∀ i, i < (d.patch r).n → val (vs.getD r []) i = X (d.gdof r i))
+    (g : Nat) (hcov : ∃ r, r < d.np ∧ g ∈ d.lmap r) :
+    val (splitterJoin B d.patches rm bm vs nBase) g = X g := by
+  obtain ⟨r, hr, hg⟩ := hcov
+  obtain ⟨i, hi, rfl⟩ := mem_lmap_gdof d r g hg
+  exact FeatModel.C13L.splitterJoin_covered ok vs X hv hX r hr i (by rw [ok.wf.size r hr]; exact hi)
+
+/-- … and a base DOF in no patch stays zero (no CharZero, no consistency needed) -/
+theorem C13.splitterJoin_uncovered {α : Type} [Field α] (d : Decomp) (rm bm : List (List Nat)) (B nBase : Nat)
+    (ok : SplitterOK d rm bm B nBase) (vs : List (List α))
+    (hv : ∀ r, r < d.np → (vs.getD r []).length = (d.patch r).n)
+    (g : Nat) (hg : g < nBase) (hun : ∀ r, r < d.np → g ∉ d.lmap r) :
+    val (splitterJoin B d.patches rm bm vs nBase) g = 0 :=
+  FeatModel.C13L.splitterJoin_uncovered ok vs hv g hg hun
+
+/-- (S3) split after join returns a consistent vector entry by entry -/
+theorem C13.splitter_split_join {α : Type} [Field α] [CharZero α] (d : Decomp) (rm bm : List (List Nat))
+    (B nBase : Nat) (ok : SplitterOK d rm bm B nBase) (vs : List (List α)) (X : Nat → α)
+    (hv : ∀ r, r < d.np → (vs.getD r []).length = (d.patch r).n)
+    (hX : ∀ r, r < d.np → ∀ i, i < (d.patch r).n → val (vs.getD r []) i = X (d.gdof r i))
+    (r : Nat) (hr : r < d.np) (i : Nat) (hi : i < (d.patch r).n) :
+    val ((splitterSplit B d.patches rm bm (splitterJoin B d.patches rm bm vs nBase)).getD r []) i
+      = val (vs.getD r []) i :=
+  FeatModel.C13L.splitter_split_join ok vs X hv hX r hr i hi
+
+/-- join after split returns the base vector on every covered base DOF -/
+theorem C13.splitter_join_split {α : Type} [Field α] [CharZero α] (d : Decomp) (rm bm : List (List Nat))
+    (B nBase : Nat) (ok : SplitterOK d rm bm B nBase) (base : List α) (hb : base.length = nBase)
+    (r : Nat) (hr : r < d.np) (i : Nat) (hi : i < (d.patch r).n) :
+    val (splitterJoin B d.patches rm bm (splitterSplit B d.patches rm bm base) nBase) (d.gdof r i)
+      = val base (d.gdof r i) :=
+  FeatModel.C13L.splitter_join_split ok base hb r hr i hi
+
+/-- the splitter hypotheses hold on `exDecomp` with identity root mirrors, 5 base DOFs, `B = 3` -/
+example : SplitterOK exDecomp exRm exBm 3 5 := exSplitterOK
+example : (∀ r, r < exDecomp.np → exRm.getD r [] = List.range (exDecomp.patch r).n) ∧ exBm = exDecomp.maps
+    ∧ ([5, 7, 1, 2, 3] : List ℚ).length = 5 := by decide
